@@ -155,6 +155,21 @@ class Checker:
 		got = gc.calc_signature(ks, arg)
 		ctx.count('calls:bytes/default')
 		self._cmp(got, exp, edt, k, prefix, seqs, 'bytes/default')
+		# results handed out earlier stay what they were (a signature that is a view of some internal buffer would change under
+		# later calls): a few earlier results are kept alive and looked at again now
+		held = self.__dict__.setdefault('held', [])
+		self.ncalls = getattr(self, 'ncalls', 0) + 1
+		for (g0, e0, w0) in (held if self.ncalls % 8 == 0 else ()):
+			ctx.evals += 1
+			if not isinstance(g0, np.ndarray) or g0.tolist() != e0:
+				ctx.violation('earlier-result-changed', f'a signature returned by an earlier call now reads {g0.tolist()[:8] if isinstance(g0, np.ndarray) else g0!r}, it was {e0[:8]}', w0)
+				held.clear()
+				break
+		if self.ncalls % 8 == 7 and isinstance(got, np.ndarray) and got.tolist() == exp and len(exp) and len(seqs[0]) <= 5000:
+			held.append((got, list(exp), self._w(k, prefix, seqs, 'held earlier result')))
+			if len(held) > 6:
+				held.pop(0)
+			ctx.count('earlier_results_rechecked')
 
 		# --- variants -----------------------------------------------------------------------------
 		allv = []
@@ -190,7 +205,7 @@ class Checker:
 				self.buf[:] = s
 				g3 = gc.calc_signature(ks, self.buf)
 				ctx.evals += 1
-				e3 = S.signature(k, prefix, [bytes(s)])
+				e3 = exp if single else S.signature(k, prefix, [bytes(s)])
 				if not isinstance(g3, np.ndarray) or g3.tolist() != e3:
 					ctx.violation('sig-mismatch', f'bytearray refilled in place and searched again: got {getattr(g3, "tolist", lambda: g3)()[:8]} expected {e3[:8]} (the buffer held another sequence during the previous call)', self._w(k, prefix, [s], 'bytearray/reused-buffer'))
 					okb = False
@@ -200,7 +215,7 @@ class Checker:
 					break
 			ctx.count('calls:bytearray/reused-buffer')
 			# and once more through find_kmers directly, after an in-place change to lower case / reversal
-			if okb and seqs and seqs[0]:
+			if okb and seqs and seqs[0] and self.ncalls % 4 == 0:
 				self.buf[:] = seqs[0]
 				list(self.gk.find_kmers(ks, self.buf))
 				alt = bytes(seqs[0]).swapcase()[::-1] if self.rot % 2 else bytes(seqs[0]).lower()
@@ -422,7 +437,7 @@ def _run_blocks(sh, ctx, ch):
 
 def finalize(merged, tier, seed, inconclusive):
 	c = merged['counters']
-	need = ['block_boundary_occurrences_planted', 'alphabet:ws', 'calls:bytearray/reused-buffer', 'calls:bytes/default', 'calls:str/set', 'calls:Seq/array', 'calls:bytearray/default', 'find_kmers_calls',
+	need = ['block_boundary_occurrences_planted', 'alphabet:ws', 'calls:bytearray/reused-buffer', 'earlier_results_rechecked', 'calls:bytes/default', 'calls:str/set', 'calls:Seq/array', 'calls:bytearray/default', 'find_kmers_calls',
 	        'cases_match_flush_with_end', 'cases_overlapping_matches', 'cases_with_dropped_nonACGT_kmer', 'cases_both_strands', 'failing_calls_raised']
 	for n in need:
 		if c.get(n, 0) == 0:
